@@ -67,7 +67,7 @@ func TestC08(t *testing.T) {
 	r.SetRule("(schema, document) pairs: G6 schemas (interfaces implementing interfaces, unions, oneOf inputs, repeatable directives, argument and input-field defaults, custom scalars, nested list/non-null) x documents that are (a) valid by construction (G8), (b) the same with 1-3 faults from a catalogue of " + sprintf("%d", gen.NumDocFaults()) +
 		" operators covering every rule (G9), (c) type-blind documents over the schema's name pools, (d) dense-overlap documents on a fixed schema (colliding response names at every level, fragments meeting under exclusive and common parents, cycles, twin recursion), (e) introspection documents with fragments on __Type spread at several depths; plus a corpus of witnesses. oracle: len(Validate) == 0 <=> the reference validator (spec section 5 + introspection depth) reports no violation. " +
 		"non-trivial = document with a fragment or an argument; distinct by (schema, document) text")
-	r.Assume("reference validator harness/ref/validate.go agrees with the 398 applicable imported graphql-js cases (TestSelfValidator); interfaces/unions without object possible types, @skip/@include on subscription roots, float literals overflowing float64 and fragment variable definitions are outside the generated domain")
+	r.Assume("reference validator harness/ref/validate.go agrees with the 398 applicable imported graphql-js cases (TestSelfValidator); interfaces/unions without object possible types, @skip/@include on subscription roots and fragment variable definitions are outside the generated domain")
 	for _, c := range []string{"corpus", "valid", "faulty", "blind", "overlap", "introspection"} {
 		kit.RegisterReplayer("C08", c, c08Replay)
 	}
